@@ -102,7 +102,7 @@ Print Assumptions C17_dgram_shared_framer_refuted.
 
 Theorem C17_dgram_equiv_partial :
   forall (FS Req Resp World : Type) (E : env FS Req Resp World) c dgs sva svs,
-    cfg_broadcast c = false -> empty_read_idle _ _ _ _ E ->
+    empty_read_idle _ _ _ _ E ->
     Forall (fun kb => whole_frames _ _ _ _ E (snd kb)) dgs ->
     sv_world _ _ sva = sv_world _ _ svs -> sv_shared _ _ sva = fresh_conn _ _ _ _ E ->
     dgram_clean _ _ _ _ E c (sv_world _ _ sva) dgs = true ->
@@ -113,17 +113,46 @@ Theorem C17_dgram_equiv_partial :
 Proof. intros FS Req Resp World E. exact (dgram_equiv FS Req Resp World E). Qed.
 Print Assumptions C17_dgram_equiv_partial.
 
+(* Twisted datagram protocol (alive since /repo b36db33) vs asyncio datagram handler: both keep
+   ONE framer for all peers, so no whole-frame hypothesis is needed — under the common features, if
+   every response is one that should be sent (Twisted's _send does not consult should_respond) and
+   no datagram makes the handler see an exception, the two servers are the same function of the
+   datagram history: same log (peer, world seen, bytes sent, action) and same final server state *)
+Theorem C17_dgram_twisted_equiv :
+  forall (FS Req Resp World : Type) (E : env FS Req Resp World) c dgs sv,
+    common_features _ _ _ _ E c -> always_responds _ _ _ _ E ->
+    Forall (fun kb => snd kb <> []) dgs ->
+    events_clean _ _ _ _ E c sv dgs = true ->
+    run_events _ _ _ _ code E TwUdp c sv (dgram_events dgs) =
+    run_events _ _ _ _ code E AioUdp c sv (dgram_events dgs).
+Proof. intros FS Req Resp World E. exact (tw_dgram_equiv FS Req Resp World E). Qed.
+Print Assumptions C17_dgram_twisted_equiv.
+
+(* one datagram, also when something is raised: same world, same bytes *)
+Theorem C17_dgram_twisted_step :
+  forall (FS Req Resp World : Type) (E : env FS Req Resp World) c w cs bs,
+    common_features _ _ _ _ E c -> always_responds _ _ _ _ E -> bs <> [] ->
+    let ra := serve_step _ _ _ _ code E TwUdp c w cs (IData bs) in
+    let rb := serve_step _ _ _ _ code E AioUdp c w cs (IData bs) in
+    fst (fst (fst ra)) = fst (fst (fst rb)) /\ snd (fst ra) = snd (fst rb) /\ (snd rb = Continue -> ra = rb).
+Proof. intros FS Req Resp World E. exact (tw_dgram_step FS Req Resp World E). Qed.
+Print Assumptions C17_dgram_twisted_step.
+
 (* the hypotheses are satisfiable: in the toy environment request datagrams are whole frames, two
    peers are answered alike; and the refutation witness's first datagram is NOT a whole frame *)
 Example C17_dgram_nonvacuous :
   empty_read_idle _ _ _ _ toy_env /\ whole_frames _ _ _ _ toy_env [7%N] /\ ~ whole_frames _ _ _ _ toy_env [255%N] /\
   dgram_clean _ _ _ _ toy_env toy_cfg [] [(0%nat, [7%N]); (1%nat, [9%N])] = true /\
+  always_responds _ _ _ _ toy_env /\
+  events_clean _ _ _ _ toy_env toy_cfg (fresh_server _ _ _ _ toy_env []) [(0%nat, [7%N]); (1%nat, [9%N])] = true /\
   outs_of _ (snd (run_events _ _ _ _ code toy_env AioUdp toy_cfg (fresh_server _ _ _ _ toy_env [])
                     (dgram_events [(0%nat, [7%N]); (1%nat, [9%N])]))) = [(0%nat, [[7%N]]); (1%nat, [[9%N]])].
 Proof.
   split; [intro fa; reflexivity|].
   split; [split; [discriminate|intro fa; eexists; reflexivity]|].
   split; [intros [_ H]; destruct (H {| fa_units := []; fa_single := true |}) as [ds Hd]; vm_compute in Hd; discriminate|].
+  split; [vm_compute; reflexivity|].
+  split; [intro p; reflexivity|].
   split; vm_compute; reflexivity.
 Qed.
 
